@@ -233,7 +233,8 @@ def canon_state(level: Level, cfg):
             items.append((2, row, row, ()))
             continue
         r, key, sub = g
-        items.append((0 if not r.ordered else 1, r.uid, row, canon_state(sub, ch)))
+        # (rows of an %ignore_case rule are the same line whatever their letter case)
+        items.append((0 if not r.ordered else 1, r.uid, row.lower() if r.icase else row, canon_state(sub, ch)))
     unordered = sorted([(uid, row, ch) for (o, uid, row, ch) in items if o == 0])
     ordered = [(uid, row, ch) for (o, uid, row, ch) in items if o == 1]
     unknown = sorted([(uid, row, ch) for (o, uid, row, ch) in items if o == 2])
